@@ -218,6 +218,28 @@ def run_word(case):
         shutil.rmtree(wd, ignore_errors=True)
 
 
+def run_task_word(i):
+    """Subsystem regions interleaved with the task events that share the
+    subsystem stack (nOS-V, Nanos6): histories from the legal-history generator
+    (nested task starts under other regions, pauses, several threads); every
+    one is properly nested, so it must be accepted and show the documented
+    values."""
+    chk, build = _CTX["chk"], _CTX["plain"]
+    rng = chk.rng(i, "taskwords")
+    mc = "V6"[i % 2]
+    g = histgen.Gen(rng, DESC, mc, {}, weights={"task": 8, "model": 10, "state": 1, "aff": 0, "misc": 0, "mark": 0, "kernel": 0})
+    g.run(rng.choice([40, 120, 300]))
+    lint = rng.random() < 0.5
+    hist = g.finish(close_regions=lint)
+    case = {"desc": DESC, "enabled": mc, "marks": {}, "hist": hist, "lint": lint}
+    wd = os.path.join(chk.scratch, "t-%d" % os.getpid())
+    try:
+        v, st = c06.judge_case(case, build, wd)
+    finally:
+        shutil.rmtree(wd, ignore_errors=True)
+    return {"i": i, "mc": mc, "viol": v, "events": len(hist), "mcvs": sorted(set(h[2] for h in hist))}
+
+
 def main(argv):
     chk = core.Check("C08", "exploration", argv)
     plain = chk.build("plain", ["ovniemu"])
@@ -233,9 +255,14 @@ def main(argv):
     for w, kind in ((["OF[", "OF]"], "pair"), (["OF[", "OF[", "OF]"], "fault-double-enter"), (["OF]"], "fault-unmatched-leave"),
                     (["OF[", "OF]", "OF["], "cut-nolint")):
         cases.append({"mc": "O", "kind": kind, "word": w, "lint": False})
+    tcases = list(range(60 if quick else 1500))
     if chk.replay:
         rp = json.load(open(chk.replay))["replay"]
-        cases = [{"mc": rp["mc"], "kind": rp["kind"], "word": rp["word"], "lint": rp["lint"], "thread": rp.get("thread", 0)}]
+        if "taskword" in rp:
+            cases, tcases = [], [rp["taskword"]]
+        else:
+            tcases = []
+            cases = [{"mc": rp["mc"], "kind": rp["kind"], "word": rp["word"], "lint": rp["lint"], "thread": rp.get("thread", 0)}]
     n = acc = rej = 0
     kinds = {}
     seen = set()
@@ -255,15 +282,27 @@ def main(argv):
             chk.report(v[0], v[1], {"mc": c["mc"], "kind": c["kind"], "word": c["word"][:600], "lint": c["lint"],
                                     "thread": c.get("thread", 0),
                                     "observation": v[2] if len(v) > 2 else {}})
-    cov = {"evaluations": n, "distinct_nontrivial": len(seen),
+    tn = tev = 0
+    tmcvs = set()
+    for res in core.pmap(run_task_word, tcases):
+        v = res["viol"]
+        if v and v[0] == "inconclusive":
+            chk.note_inconclusive(v[1]); continue
+        tn += 1; tev += res["events"]; tmcvs.update(res["mcvs"])
+        if v:
+            chk.report("task-words:%s:%s" % (res["mc"], v[0]), v[1], {"taskword": res["i"], "observation": v[2]})
+    n += tn
+    cov = {"evaluations": n, "distinct_nontrivial": len(seen) + tn,
            "rule": "per model (nOS-V, Nanos6, NODES, MPI, TAMPI, OpenMP, kernel, ovni flush): every enter/leave pair once with "
                    "its label; random properly nested words (depth <= 12, no immediate re-entry) and their cuts with/without "
                    "-l; single faults truncated right after the faulty event (wrong leave, deleted enter, unmatched leave); "
                    "immediate re-entry for channels that forbid duplicates; chains to depth 512 (accept) and 513 (reject); "
-                   "the same events with the thread paused / cooling / warming / out of CPU. distinct_nontrivial = distinct "
-                   "(model, kind, word, lint) executed",
+                   "the same events with the thread paused / cooling / warming / out of CPU; nOS-V and Nanos6 histories in which "
+                   "subsystem regions and task events (which push the task body on the same stack) interleave on three "
+                   "threads. distinct_nontrivial = distinct (model, kind, word, lint) executed + task histories",
            "samples": [{"mc": c["mc"], "kind": c["kind"], "word": c["word"][:10], "lint": c["lint"]} for c in cases[:3]],
-           "cases_by_kind": kinds, "emulator_accepted": acc, "emulator_rejected": rej}
+           "cases_by_kind": kinds, "emulator_accepted": acc, "emulator_rejected": rej,
+           "task_histories": tn, "task_history_events": tev, "task_history_event_codes": len(tmcvs)}
     return chk.finish(cov, assumptions=[
         "spec/events.json (frozen) gives partners, channels, labels, duplicate policy and required thread state",
         "models that allow duplicates may accept immediate re-entry: only the stated direction is judged",
